@@ -80,6 +80,10 @@ pub const MAIN: &[&str] = &[
     "rock q with 1, 2, 3\nfirst takes k\nwhile roll q\ngive back 7\n\ngive back 8\n\nsay first taking 0\nsay q\n",
     "rock q with 1, 2, 3, 4\nrock p with 1, 2, 3\nfirst takes k\nwhile roll q\nuntil not roll p\nif k is 0\ngive back 7\n\n\n\ngive back 8\n\nsay first taking 0\nsay q\nsay p\n",
     "rock q with 0, 0, 5\nfirst takes k\nuntil roll q\nsay 1\n\nuntil roll q\ngive back 9\n\ngive back 8\n\nsay first taking 0\nsay q\n",
+    // a compound assignment reads its target first: a name that is not visible is an error, not a creation
+    "let zork be with 1\nsay zork\n",
+    "say yod taking 1\nlet s be with 1\nsay s\n",
+    "let u be times 2\nsay u\n",
     // every wrong arity, with parameters the body never reads or that exist outside
     "two takes k, j\nsay k\ngive back k\n\nsay two taking 1\n",
     "two takes k, x\ngive back k plus x\n\nsay two taking 5\nsay x\n",
